@@ -34,6 +34,47 @@ func init() {
 	}
 }
 
+// C05 op "fill": what the batch runner fills into every request it hands to the client (test name in
+// the request headers — also in the headers of a raw HTTP request —, the server's host, port and
+// certificate), for reference and non-reference servers, with and without raw requests.
+type c05FillIn struct {
+	N      int  `json:"n"`
+	IsRef  bool `json:"isRef"`
+	RawReq bool `json:"rawReq"`
+	UseTLS bool `json:"useTLS"`
+}
+
+func init() {
+	gen.RegisterOp("c05", "fill", func(_ *gen.Ctx, raw json.RawMessage) any {
+		in := gen.Into[c05FillIn](raw)
+		names := make([]string, in.N)
+		cases := make([]cc.VerifC11Case, in.N)
+		for i := range names {
+			names[i] = "Suite/fill/case" + string(rune('0'+i))
+			cases[i] = cc.VerifC11Case{K: "pass"}
+		}
+		resp := "ok"
+		if in.UseTLS {
+			resp = "okcert"
+		}
+		obs := cc.VerifC11Run(cc.VerifC11Spec{Names: names, Cases: cases, Start: "ok", Write: "ok", Close: "ok", Resp: resp, Dies: -1,
+			RespLen: cc.VerifC11RespLen(), IsRef: in.IsRef, RawReq: in.RawReq, UseTLS: in.UseTLS})
+		return map[string]any{"reqs": obs.Reqs, "hang": obs.Hang}
+	})
+}
+
+func c05FillScenarios() []any {
+	var ins []any
+	for _, isRef := range []bool{false, true} {
+		for _, raw := range []bool{false, true} {
+			for _, tls := range []bool{false, true} {
+				ins = append(ins, c05FillIn{N: 2, IsRef: isRef, RawReq: raw, UseTLS: tls})
+			}
+		}
+	}
+	return ins
+}
+
 func oscmdClientScenarios(c *gen.Ctx) []any {
 	ins := []any{
 		oscmdClientIn{"exit0-at-once", cc.VerifOSClientSpec{Script: "exit 0", Small: 3, TimeoutS: 20}},
